@@ -56,6 +56,51 @@ theorem no_set_plugin_no_restore (c : Chain) (s : Store) (body : List Stmt) (h :
     · exact absurd ((hasActiveSetB_iff c).mp hh) h
   simp [runTest, postStore_eq, hb]
 
+/-! ## a newly constructed plugin, and tests that run without an active plugin -/
+
+/-- **A fresh plugin starts empty.**  Constructing a `SetPointerPlugin` resets the table index:
+    whatever earlier tests recorded while no enabled plugin was installed is forgotten.  A test that
+    then runs with an enabled plugin gets back, for EVERY location, exactly the value it had before
+    that test — its restore touches only that test's own redirections — and leaves an empty table. -/
+theorem fresh_plugin_starts_empty (c : Chain) (s : Store) (body : List Stmt) (hset : HasActiveSet c) :
+    (∀ l, (runTest c (construct s) body).store.mem l = s.mem l) ∧
+    (runTest c (construct s) body).store.table = [] :=
+  restore_all c (construct s) body hset rfl
+
+/-- stale entries have no influence at all on what happens after the construction … -/
+theorem fresh_plugin_forgets_stale_entries (c : Chain) (s : Store) (body : List Stmt) :
+    runTest c (construct s) body = runTest c { mem := s.mem, table := [] } body := rfl
+
+/-- … and the new plugin has the whole table: the verdict of the next test and the number of
+    redirections it carries out do not depend on how full the table was before -/
+theorem fresh_plugin_has_whole_table (c : Chain) (s s' : Store) (body : List Stmt) :
+    (runTest c (construct s) body).failed = (runTest c (construct s') body).failed ∧
+    (runTest c (construct s) body).overflow = (runTest c (construct s') body).overflow ∧
+    (runTest c (construct s) body).done = (runTest c (construct s') body).done := by
+  have := runBody_flags body (construct s) (construct s') 0 rfl
+  simpa [runTest] using this
+
+/-- **Tests that run without an enabled plugin** keep their entries recorded: the index grows by
+    the number of redirections carried out, over any number of such tests, and never passes the
+    limit (the redirections beyond it fail the test, see `beyond_limit_fails_no_write`). -/
+theorem inactive_test_keeps_entries (c : Chain) (s : Store) (body : List Stmt) (h : ¬ HasActiveSet c) :
+    (runTest c s body).store.table.length = s.table.length + (runTest c s body).done ∧
+    (s.table.length ≤ maxSet → (runTest c s body).store.table.length ≤ maxSet) := by
+  rw [no_set_plugin_no_restore c s body h]
+  have := runBody_table_length body s 0
+  exact ⟨by simpa [runTest] using this.1, this.2⟩
+
+/-- when a plugin becomes active again WITHOUT a new construction, its post action undoes all the
+    recorded entries, back to the memory at the last point where the table was empty -/
+theorem leftover_entries_undone_by_next_active_test (c₀ c : Chain) (s : Store) (b₀ body : List Stmt)
+    (hempty : s.table = []) (h0 : ¬ HasActiveSet c₀) (hset : HasActiveSet c) :
+    (runTest c (runTest c₀ s b₀).store body).store.mem = s.mem ∧
+    (runTest c (runTest c₀ s b₀).store body).store.table = [] := by
+  obtain ⟨h1, h2⟩ := restore_all_general c (runTest c₀ s b₀).store body hset
+  refine ⟨?_, h2⟩
+  rw [h1, no_set_plugin_no_restore c₀ s b₀ h0, runBody_restore_inv b₀ s 0, hempty]
+  rfl
+
 /-! ## the limit -/
 
 /-- **Beyond the limit.**  With `maxSet` entries in the table the next `UT_PTR_SET` fails the test
@@ -245,6 +290,14 @@ def exChain : Chain := installAll
 example : HasActiveSet exChain ∧ UniqueNames exChain := by
   refine ⟨⟨⟨1, "set", true, .setPointer⟩, by decide, rfl, rfl⟩, by unfold UniqueNames; decide⟩
 example : runAllPre exChain = ["c", "set", "a"] ∧ runAllPost exChain = ["a", "set", "c"] := by decide
+/-- the history of the constructor change: a test redirects pointer 1 while the plugin is disabled, a
+    new plugin is constructed, the next test redirects pointer 1 again: it comes back to the value
+    the first test left, not to the original one -/
+example :
+    let c₀ : Chain := [⟨99, "SetPointerPlugin", false, .setPointer⟩]
+    let c₁ : Chain := [⟨100, "SetPointerPlugin", true, .setPointer⟩]
+    let s₁ := (runTest c₀ { mem := fun l => l, table := [] } [.set 1 1001]).store
+    s₁.table.length = 1 ∧ (runTest c₁ (construct s₁) [.set 1 1002]).store.mem 1 = 1001 := by decide
 example : (regRemove "a" exChain).map (·.name) = ["c", "b", "set"] := by decide
 example : (runTest exChain { mem := fun l => l, table := [] } [.set 3 100, .set 3 200, .set 5 7, .stop, .set 6 1]).store.mem 3 = 3 := by
   decide
